@@ -32,15 +32,18 @@ CLAIMED = {
          "equal the specification's bytes.", "5 C01"),
  "C02": ("reference signer Wire.tla + spelling law on Request!Q; TLC-enumerated respellings replayed; TLC trace validation",
          "Requests signed by the specification's own signer in 12 wire spellings x 3 logical requests x both carriers x clock "
-         "at the window edges, and a grid of valid request shapes, must all be accepted; the spelling law is model-checked "
-         "on the specification for every generated case.", "5 C02"),
+         "at the window edges (incl. absolute-form targets), a grid of valid request shapes, the full product of "
+         "configuration switches (sampled in quick) and the repository's AWS test-suite requests (AWS-computed signatures, "
+         "AWS's own .creq/.sts files as an oracle independent of the specification) must all be accepted; the spelling law "
+         "is model-checked on the specification for every generated case.", "5 C02"),
  "C03": ("Request.tla rules 12-13 + SigV4.tla ProviderArgs; foreign-scope-signed requests replayed; TLC trace validation",
          "31 credential scopes x 3 server configurations x both carriers, each signed with the key of the scope it names, and "
          "timestamps around midnight UTC; TLC checks kind/status and the exact arguments the provider receives.", "5 C03"),
  "C04": ("Civil.tla instant arithmetic (Fresh/Expired/TooNew); every whole-second offset and ns probes replayed; TLC trace validation",
          "Every whole-second offset around both bounds (quick +-[880,920] s, thorough [-1200,1200] s x 6 server instants), "
-         "1 ns and 0.5 s probes, 5 textual renderings, both carriers; accept iff inside the inclusive window, otherwise "
-         "expired / not-yet-current with zero provider calls.", "5 C04"),
+         "1 ns and 0.5 s probes, 7 textual renderings, server clocks with fractional seconds, X-Amz-Expires values that must "
+         "not move the window, both carriers; accept iff inside the inclusive window, otherwise expired / not-yet-current "
+         "with zero provider calls. An Apalache lemma ties the triple comparison to nanosecond arithmetic (thorough).", "5 C04"),
  "C05": ("Request!SignedOk requirements predicate; requirement sets x header sets x signed lists replayed; TLC trace validation",
          "All 64 requirement-set combinations in three letter cases through the three container construction routes, with "
          "correctly signed requests that omit required headers from the list; container operation sequences are checked "
@@ -49,8 +52,9 @@ CLAIMED = {
          "The comparator model satisfies non-interference (and the early-exit control violates it). On the implementation, a "
          "forked child builds a signed request whose signature first differs at position p (same character class), stops, "
          "and is single-stepped under ptrace through sigv4_validate_request; in-image instruction count and address digest "
-         "must be identical for every p (quick 9 positions + control, thorough all 64 x 3 requests x 2 keys), for lower-case "
-         "guesses, upper-case guesses and with a Trace-level logger installed.", "5 C07"),
+         "must be identical for every p (quick 9 positions + control, thorough all 64 x 6 requests x 2 keys), for lower-case "
+         "guesses, upper-case guesses and with a Trace-level logger installed; some base requests carry a nonce chosen so "
+         "that the correct signature has a special shape (leading 0, 00, trailing 0).", "5 C07"),
  "C08": ("totality: a panic event matches no action of any trace specification; size ladder, charset labels, degenerate inputs, seeded fuzz",
          "Panics are caught at the harness boundary and logged as data; no trace specification has an action for them. "
          "Covers the URI-length ladder around 65534, every charset label, secrets x capacities, the error table, builders, "
@@ -84,8 +88,8 @@ CLAIMED = {
          "re-validated from 2-16 threads released together and in fresh processes, every outcome digest must equal the "
          "reference's.", "5 C18"),
  "C19": ("Request.tla selection rules (first header, last-wins inside, first query value); duplicated-input requests replayed; TLC trace validation",
-         "33 requests with one authentication input duplicated in both orders, signed so that exactly one selection is "
-         "valid.", "5 C19"),
+         "60 requests with one authentication input duplicated (both orders, escaped parameter names, header vs query "
+         "parameter, URL vs folded body, two Content-Type headers), signed so that exactly one selection is valid.", "5 C19"),
 }
 
 NOT_YET = {}
